@@ -123,9 +123,10 @@ static Reg r_accum("accum", [](const Args& a) {
     else if (t[0] == 's') acc = unhx(t.substr(2));                 // assignment: the held sum is exactly y afterwards
     else if (t[0] == 'd') acc -= unhx(t.substr(2));
     else if (t[0] == 'c') { Accumulator<double> b(acc); acc = Accumulator<double>(); acc = b; }   // copy round trip
-    else if (t[0] == 'r') {                                      // remainder: congruent mod y, |result| <= |y|/2 up to the low word
+    else if (t[0] == 'r') {                                      // remainder on a copy: must not disturb the accumulator it was copied from
+      // (no range oracle: the header's "[-y/2, y/2]" holds only up to the low word, e.g. s = -3147257530813685.5, t = 0.047, y = 1 gives
+      //  0.547; the property does not speak about it — observation O3 in DESIGN.md)
       double y = unhx(t.substr(2)); Accumulator<double> b(acc); b.remainder(y);
-      if (std::isfinite(acc._s) && !(std::fabs(b()) <= std::fabs(y) / 2 * (1 + 4e-16))) bad("accum-remainder-range", "|remainder| > |y|/2");
     }
     else if (t[0] == 'q') {                                      // Sum(y) is const and equals (acc += y)()
       double y = unhx(t.substr(2)); Accumulator<double> b(acc); double q = acc.Sum(y); b += y;
